@@ -358,4 +358,8 @@ def run(F, rep):
     from engines import rule_loop_state
     rule_loop_state(F, rep, 'C05.S1', lambda g: g.file.endswith('/analyser.cpp'), 'analyser.cpp')
 
+    # ------------------------------------------------------------------ every element of a collection is handled
+    from engines import rule_visit_all
+    rule_visit_all(F, rep, 'C05.Y1', lambda g: g.file.endswith('/analyser.cpp'), 30, 'analyser.cpp')
+
 
